@@ -19,6 +19,10 @@ def check_C20(res, tier, seed, replay):
         hist += [[str(a), 'R', str(b), 'R'] for a in vals for b in vals if a != b][::(3 if tier == 'quick' else 1)]
         hist += [[str(a), 'R', str(a), 'R', str(b), 'R', str(a), 'R'] for a, b in ((1, 3), (5, 2), (16, 24), (24, 3))]      # same value twice, back and forth
         hist += [[str(rng.choice(vals)) if rng.random() < 0.6 else 'R' for _ in range(8)] for _ in range(10 if tier == 'quick' else 100)]
+        # the same histories with the argument held in different integral types by the caller (int, unsigned, long, ...)
+        tys = ['', 'i', 'u', 'l', 'h', 'q']
+        hist += [[str(a) + ta, 'R', str(b) + tb, 'R'] for (a, b) in ((2, 8), (8, 2), (1, 16), (3, 24), (24, 5)) for ta in tys for tb in tys if ta != tb][::(2 if tier == 'quick' else 1)]
+        hist += [[(str(rng.choice(vals)) + rng.choice(tys)) if rng.random() < 0.6 else 'R' for _ in range(8)] for _ in range(10 if tier == 'quick' else 100)]
         trace = os.path.join(wd, 'conc.ndjson')
         with open(trace, 'w') as out:
             for i, h in enumerate(hist):
@@ -62,7 +66,7 @@ def check_C20(res, tier, seed, replay):
         res.cov['event_counts'] = ev
         res.cov['evaluations'] = len(hist) + ndemo
         res.cov['distinct_nontrivial'] = len({tuple(h) for h in hist}) + ndemo
-        res.cov['rule'] = 'histories of set_global_tbb_concurrency(n)/region on real oneTBB (one process each), n in {1,2,3,5,16,24}; demo runs = program x algorithm x --cores {0,1,3,7} x --parallel x unrelated flags on vtbb'
+        res.cov['rule'] = 'histories of set_global_tbb_concurrency(n)/region on real oneTBB (one process each), n in {1,2,3,5,8,16,24}, the argument passed as size_t / int / unsigned / long / unsigned short / unsigned long long; demo runs = program x algorithm x --cores {0,1,3,7} x --parallel x unrelated flags on vtbb'
         with open(trace) as f:
             res.sample([json.loads(next(f)) for _ in range(4)])
         for rj in v['rejects']:
